@@ -39,7 +39,7 @@ ASSUMPTIONS = [
 ]
 
 GAP = 1e-6
-RES_TOL = 1e-9       # ALG: |A q - w B q|_max <= RES_TOL * (|A|max + |w||B|max) |q|_1 + 1e-12
+RES_TOL = 1e-9       # ALG: |A q - w B q|_max <= RES_TOL * max(|A||q| + |w||B||q|) + 1e-12
 NORM_TOL = 1e-9
 VAL_TOL = 1e-8       # eigenvalue multiset agreement relative to the spectral scale
 
@@ -154,6 +154,11 @@ class Judge:
         return cond
 
 
+def _sig(sig, *keys):
+    """Root-cause signature: the path plus the named options only (never sizes, tables or values)."""
+    return {k: sig[k] for k in ('path',) + keys if k in sig}
+
+
 def _common_pair_checks(J, sub, sig, A, B, W, Q, realsym, sortname):
     """Residual, bilinear normalisation, order, sign -- the part of the statement shared by both paths."""
     k = len(W)
@@ -164,8 +169,7 @@ def _common_pair_checks(J, sub, sig, A, B, W, Q, realsym, sortname):
         worst_r = max(worst_r, ratio)
         nb = re_.bilinear_norm(B, Q[:, i])
         worst_n = max(worst_n, abs(nb - 1.0) / NORM_TOL)
-    J.chk(worst_r <= 1.0, 'residual', sub, dict(sig, ratio=mag(worst_r * RES_TOL)), rel_residual=worst_r * RES_TOL,
-          W=W)
+    J.chk(worst_r <= 1.0, 'residual', sub, _sig(sig, 'gen', 'shift'), rel_residual=worst_r * RES_TOL, W=W)
     if not np.isfinite(worst_n):
         worst_n = float('inf')
     nbs = np.array([re_.bilinear_norm(B, Q[:, i]) for i in range(k)])
@@ -180,7 +184,7 @@ def _common_pair_checks(J, sub, sig, A, B, W, Q, realsym, sortname):
             how = 'qHq=1'
         elif np.allclose(nbs, -1.0, atol=1e-8):
             how = 'qTBq=-1'
-    J.chk(worst_n <= 1.0, 'norm', sub, dict(sig, how=how), qTBq=nbs)
+    J.chk(worst_n <= 1.0, 'norm', sub, dict(_sig(sig), how=how), qTBq=nbs)
     # order
     scale = max(float(np.max(np.abs(W))) if k else 0.0, 1.0)
     key = re_.sort_key(sortname, W, Q)
@@ -264,7 +268,7 @@ def exec_dense(case):
             if not ok:
                 continue
             d = re_.match_multiset(W, Wr)
-            J.chk(d <= VAL_TOL * wscale, 'spectrum', sub, dict(sig, ratio=mag(d / wscale)), W=W, Wref=Wr, dist=d)
+            J.chk(d <= VAL_TOL * wscale, 'spectrum', sub, _sig(sig, 'gen'), W=W, Wref=Wr, dist=d, rel=mag(d / wscale))
             _common_pair_checks(J, sub, sig, A, B, W, Q, realsym, sortname)
             J.outcomes.add(f"dense/{cls}/{gen}/W{W.dtype.kind}Q{Q.dtype.kind}/{sortname}/"
                            f"{'sorted' if _is_identity_needed(W, Q, sortname) else 'perm'}")
@@ -346,7 +350,8 @@ def exec_sparse(case):
                     if reason is not None:
                         J.observed.append('inadmissible:' + reason)
                         continue
-                    sig = {'path': 'sparse', 'variant': var, 'gen': gen != 'std', 'sigma': sname}
+                    sig = {'path': 'sparse', 'variant': var, 'gen': gen != 'std', 'sigma': sname,
+                           'shift': 'zero' if sg == 0.0 else 'nonzero'}
                     sigs = [pym.Signal('K', K.copy())] + ([pym.Signal('M', M.copy())] if M is not None else [])
                     kw = {'nmodes': nmodes, 'sigma': sg}
                     if flag is not None:
@@ -368,8 +373,8 @@ def exec_sparse(case):
                         continue
                     wscale = max(float(np.max(np.abs(expect))), abs(sg), 1e-12)
                     d = re_.match_multiset(W, expect)
-                    J.chk(d <= VAL_TOL * wscale, 'closest_to_shift', sub, dict(sig, ratio=mag(d / wscale)), W=W,
-                          expected=expect, sigma=sg, dist=d)
+                    J.chk(d <= VAL_TOL * wscale, 'closest_to_shift', sub, _sig(sig, 'gen', 'sigma'), W=W,
+                          expected=expect, sigma=sg, dist=d, rel=mag(d / wscale))
                     _common_pair_checks(J, sub, sig, K, M, W, Q, realsym, sortname)
                     J.outcomes.add(f"sparse/{var}/{gen}/{sname}/k{nmodes}/W{W.dtype.kind}Q{Q.dtype.kind}")
     return _finish(J, case, f"sparse|{grid}|{bc}|{var}|{gen}|{t}")
